@@ -110,11 +110,11 @@ impl Operation {
             Shr => compute_shr_uint(a, b),
             // TODO test with conner case when it is possible to get the number
             //      bigger then modulus
-            Bor => a.bitor(b),
+            Bor => reduce_once(a.bitor(b)),
             Band => a.bitand(b),
             // TODO test with conner case when it is possible to get the number
             //      bigger then modulus
-            Bxor => a.bitxor(b),
+            Bxor => reduce_once(a.bitxor(b)),
             Idiv => {
                 if b == U256::ZERO {
                     U256::ZERO
@@ -394,6 +394,15 @@ impl std::fmt::Display for NodeConstErr {
 }
 
 impl Error for NodeConstErr {}
+
+/// Reduces a value below 2^254 (hence below 2 * M) modulo M.
+fn reduce_once(x: U256) -> U256 {
+    if x >= M {
+        x - M
+    } else {
+        x
+    }
+}
 
 fn compute_shl_uint(a: U256, b: U256) -> U256 {
     debug_assert!(b.lt(&U256::from(256)));
